@@ -117,7 +117,13 @@ UnaryCases(x) ==
            IF x.m = 12 /\ x.d = 30 /\ IsLeap(x.y) THEN "from_days-dec30-leap" ELSE "from_days", TRUE),
       Case("sel", "CAST(" \o Q(DateStr(x)) \o " AS DATE)", {DateStr(x)}, "cast", x.d >= 29),
       Case("sel", "STR_TO_DATE(" \o Q(DateStr(x)) \o ", '%Y-%m-%d')", {DateStr(x)}, "str_to_date", x.d >= 29),
-      Case("insert", DateStr(x), {DateStr(x)}, "insert", x.d >= 29) }
+      Case("insert", DateStr(x), {DateStr(x)}, "insert", x.d >= 29),
+      Case("sel", "DATE_FORMAT(" \o Q(DateStr(x)) \o ", '%Y|%m|%d|%j|%e|%c')",
+           {Pad4(x.y) \o "|" \o Pad2(x.m) \o "|" \o Pad2(x.d) \o "|" \o Pad3(DayOfYear(x)) \o "|" \o I2S(x.d) \o "|" \o I2S(x.m)},
+           "date_format", TRUE),
+      \* %y: two digits; dev = the engine's recorded deviation (no zero padding below 10)
+      [Case("sel", "DATE_FORMAT(" \o Q(DateStr(x)) \o ", '%y')", {Pad2(x.y % 100)}, "date_format-y", x.y % 100 < 10)
+         EXCEPT !.dev = IF x.y % 100 < 10 THEN {I2S(x.y % 100)} ELSE {}] }
 
 AddCases(x) ==
     { cs \in
